@@ -17,7 +17,7 @@ from fractions import Fraction
 import numpy as np
 
 from .. import bootstrap as B
-from ..common import OutOfDomain, Stop, abits, lib_call
+from ..common import OutOfDomain, Stop, abits, lay_out, lib_call
 from ..engine import EventLog, Outcome, bump, h64, violation
 
 PID = "C18"
@@ -40,7 +40,7 @@ ASSUMPTIONS = [
 ]
 
 
-EXPECTED_PROBES = ['caller_overwrote_split_outputs', 'all_three_formats_compared', 'empty_first_set', 'empty_second_set', 'float_and_exact_floor_differ', 'gap_labels_rejected', 'ids_beyond_float32_exact_range', 'ids_differ_from_row_numbers', 'pct_times_n_is_an_integer', 'single_sample_file_loaded', 'split_reissued_after_prng_perturbation', 'three_or_more_classes']
+EXPECTED_PROBES = ['split_input_not_plain_float64_c_order', 'caller_overwrote_split_outputs', 'all_three_formats_compared', 'empty_first_set', 'empty_second_set', 'float_and_exact_floor_differ', 'gap_labels_rejected', 'ids_beyond_float32_exact_range', 'ids_differ_from_row_numbers', 'pct_times_n_is_an_integer', 'single_sample_file_loaded', 'split_reissued_after_prng_perturbation', 'three_or_more_classes']
 
 
 def arms(tier):
@@ -84,7 +84,7 @@ def gen_case(rng, arm, tier, k=0):
     else:
         ids = sorted(rng.sample(range(0, 2**31 - 1), n))
         ids[-1] = 2**31 - 1
-    case = {"n": n, "d": d, "K": K, "X": X, "Y": Y, "ids": ids, "style": style}
+    case = {"n": n, "d": d, "K": K, "X": X, "Y": Y, "ids": ids, "style": style, "xform": rng.choice(("c", "c", "c", "f", "strided", "cols", "float32"))}
     ops = []
     if arm == "mixed":
         ops.append(["write_opf"])
@@ -181,6 +181,18 @@ def run_case(case):
         states = set()
         interesting = False
         facts = dict(n_is_1=(n == 1))
+
+        def caller_x():
+            """The caller's feature array in this world's representation (values are float32-exact)."""
+            xf = case.get("xform", "c")
+            if xf == "float32":
+                return X.astype(np.float32)
+            if xf in ("f", "strided", "cols"):
+                return lay_out(X, xf)[1]
+            return X.copy()
+
+        if case.get("xform", "c") != "c":
+            bump(out.probes, "split_input_not_plain_float64_c_order")
 
         def pct_class(p):
             if p == 0.0:
@@ -304,7 +316,7 @@ def run_case(case):
                 out.steps += 1
                 pct, seed = op[1], op[2]
                 fn = B.splitter.split if kop == "split" else B.splitter.split_with_index
-                res = lib_call(kop, fn, X.copy(), Y.copy(), pct, seed)
+                res = lib_call(kop, fn, caller_x(), Y.copy(), pct, seed)
                 canon = check_split(kop, pct, seed, res, k)
                 key = (kop, repr(pct), seed)
                 reissued = key in split_seen
@@ -344,7 +356,7 @@ def run_case(case):
             elif kop == "merge":
                 out.steps += 1
                 pct, seed = op[1], op[2]
-                X1, X2, Y1, Y2 = lib_call("split", B.splitter.split, X.copy(), Y.copy(), pct, seed)
+                X1, X2, Y1, Y2 = lib_call("split", B.splitter.split, caller_x(), Y.copy(), pct, seed)
                 perturb += 1
                 Xm, Ym = lib_call("merge", B.splitter.merge, X1, X2, Y1, Y2)
                 Xm, Ym = np.asarray(Xm), np.asarray(Ym)
